@@ -433,6 +433,8 @@ def check_likelihood(ctx, cname, data_attr, stochastic):
             continue
         tests = {util.canon_test(e.node).replace(' ', ''): e.info for e in p_.events if e.kind == 'test'}
         nan = tests.get('np.isnan(error)')
+        if nan is None and tests.get('notnp.isnan(error)') is not None:
+            nan = not tests['notnp.isnan(error)']
         val = src(p_.events[-1].node.value).replace(' ', '') if p_.events[-1].node.value is not None else None
         if nan is True:
             n_nan += 1
@@ -595,7 +597,19 @@ def check_evaluation(ctx):
     cls = get_class(ctx, 'inference_setup', 'InferenceSetup')
     f = meth(cls, 'cost_function')
     txt = [util.stmt_key(s).replace(' ', '') for s in ast.walk(f) if isinstance(s, ast.stmt)]
-    ok = 'cost_value=self.pid_interface.get_likelihood_function(params)' in txt and 'returncost_value' in txt
+    # every returned value is (a local that holds) the interface's value for the function's own argument, and nothing stores into it in between
+    theta = f.args.args[1].arg
+    defs = util.single_defs(f)
+    rets = [n_ for n_ in ast.walk(f) if isinstance(n_, ast.Return)]
+    ok = bool(rets)
+    for r_ in rets:
+        v_ = r_.value
+        if isinstance(v_, ast.Name) and defs.get(v_.id) is not None:
+            v_ = defs[v_.id]
+        ok = ok and isinstance(v_, ast.Call) and src(v_.func).replace(' ', '') == 'self.pid_interface.get_likelihood_function' \
+            and [src(a_) for a_ in v_.args] == [theta] and not v_.keywords
+    ok = ok and not any(isinstance(n_, (ast.Assign, ast.AugAssign)) and any(isinstance(t_, ast.Name) and t_.id == theta
+                        for t_ in (n_.targets if isinstance(n_, ast.Assign) else [n_.target])) for n_ in ast.walk(f))
     ctx.ob('R15.5-function-of-theta', 'cost_function', ok, ctx.loc('inference_setup', f), 'cost_function returns the interface value for theta unchanged', '')
     f = meth(cls, 'setup_cost_function')
     calls = util.calls_in(f, suffix='setup_likelihood_function')
